@@ -165,12 +165,33 @@ int ezc3d::ParametersNS::GroupNS::Parameter::read(ezc3d::c3d &file, int nbCharIn
         throw std::ios_base::failure ("Parameter type unrecognized");
 
     // number of dimension of parameter (0 for scalar)
-    int nDimensions(file.readInt(1*ezc3d::DATA_TYPE::BYTE));
+    int nDimensions(static_cast<int>(file.readUint(1*ezc3d::DATA_TYPE::BYTE)));
+    if (nDimensions > 7)
+        throw std::ios_base::failure ("Parameter has more dimensions than a c3d file can declare");
     if (nDimensions == 0) // In the special case of a scalar (a single character for a string)
         _dimension.push_back(1);
     else // otherwise it's a matrix
         for (int i=0; i<nDimensions; ++i)
             _dimension.push_back (file.readUint(1*ezc3d::DATA_TYPE::BYTE));    // Read the dimension size of the matrix
+
+    // The values announced by the dimensions must be present in the file (a dimension of zero announces no value,
+    // but the readers still loop over the other dimensions)
+    {
+        size_t nbValues(1), nbLoops(1);
+        for (size_t i=0; i<_dimension.size(); ++i){
+            nbValues *= _dimension[i];
+            if (_dimension[i] != 0)
+                nbLoops *= _dimension[i];
+        }
+        std::streampos current(file.tellg());
+        file.seekg(0, std::ios::end);
+        std::streampos end(file.tellg());
+        file.seekg(current);
+        if (current < 0 || end < current
+                || nbValues * static_cast<size_t>(abs(lengthInByte)) > static_cast<size_t>(end - current)
+                || (nbValues == 0 && nbLoops > static_cast<size_t>(end - current)))
+            throw std::ios_base::failure ("Parameter values go past the end of the file");
+    }
 
     // Read the data for the parameters
     if (_data_type == DATA_TYPE::CHAR)
